@@ -725,14 +725,6 @@ func c09Cmp(c *vf.Ctx, cs c09Case, what string, goOut, mOut c08Out) bool {
 	c.Count("outcome:" + cs.Surface + ":" + goOut.String())
 	if !c08SameOut(goOut, mOut) {
 		cls := "c09-" + cs.Surface + "-outcome"
-		// detectors of the two RSA defects of the pinned tree (fixed by 7a76796/e750129): the model
-		// describes the repaired behaviour, so the old code shows up here
-		if cs.Mut == "rsa-one-prime" {
-			cls = "c08-rsa-single-prime-marshal-panic"
-		} else if cs.Mat.Kind == "rsa" && (cs.Mut == "swap-pq" || cs.Mut == "dp+1" || cs.Mut == "dq+1" || cs.Mut == "qi+1" || cs.Mut == "p=q" ||
-			cs.Mut == "dp-number" || len(cs.Mut) > 3 && cs.Mut[:3] == "oth") {
-			cls = "c08-rsa-multiprime-roundtrip"
-		}
 		c08Fail(c, "correspondence", cls, what+": goat and model disagree ("+cs.Mut+")", cs, goOut.String(), mOut.String())
 		return false
 	}
@@ -1186,7 +1178,7 @@ func c09GenGo(r *vf.Rand) c09Case {
 	case len(mut) > 3 && mut[:3] == "rsa":
 		m = c08GenRSAMat(r, true)
 		if mut == "rsa-three-primes" {
-			m = c08GenRSA(r, 768, 65537, 3)
+			m = c08GenRSA(r, 768, 65537, 3+r.Intn(3)) // 3, 4 or 5 primes
 			m.Pre = r.Bool()
 		}
 		p, _, _ := m.objects()
